@@ -569,6 +569,11 @@ def run(ctx):
         as_str = ["file", "file", "str", "anon"][t.draw(4, "entry")]
         if as_str == "anon" and not anon_allowed(w, F):
             as_str = "file"
+        if fam in GR and not getattr(w, "gr_relative", False) and prop in ("C17", "C18") and t.chance(1, 4, "bulk-op"):
+            ok = op_bulk(ctx, prop, sysm, w, cache, famtag, global_repo, t, wrap)
+            if not ok:
+                return
+            continue
         if opk <= 2:
             ctx.sample["ops"].append(["load", os.path.relpath(F, ROOT), params, as_str])
             ok = op_load(ctx, prop, sysm, w, F, params, cache, famtag, global_repo, as_str, shapes)
@@ -853,6 +858,129 @@ def op_corrupt_cycle(ctx, prop, sysm, w, F, params, cache, famtag, global_repo, 
     ok = op_load(ctx, "C18" if prop in ("C18", "C28") else prop, sysm, w, F, params, cache, famtag, global_repo,
                  entry if t.chance(1, 2, "reload-same-entry") else "file", shapes)
     return ok
+
+
+def op_bulk(ctx, prop, sysm, w, cache, famtag, global_repo, t, wrap):
+    """GlobalRepo.load_models_in_model_repo(global_model_repo=<a repository the caller owns and keeps>): every file
+    of the patterns is loaded as a main model of its registered language into the caller's repository.  C18 speaks of
+    "any surviving repository": after a failing bulk load the caller's repository equals its snapshot; after the
+    repair it is complete and consistent (C17 oracle)."""
+    from textx.scoping import GlobalModelRepository
+
+    base = sysm.prov.base if wrap else sysm.prov
+    if getattr(sysm, "caller_repo", None) is None:
+        sysm.caller_repo = GlobalModelRepository()
+        textx.clear_language_registrations()
+        textx.register_language("lang-m", pattern="*.m", metamodel=sysm.mm)
+    repo = sysm.caller_repo
+    have = {getattr(m, "_tx_filename", None) for m in repo.all_models}
+    todo = [f for f in w.gr_files if f not in have]
+    fail = prop == "C18" and todo and t.chance(2, 3, "bulk-fails")
+    X = kind = target = None
+    if fail:
+        X = t.pick([f for f in todo if f not in cache] or todo, "bulk-failing-file")
+        if X in cache:
+            fail = False
+    if fail:
+        xrefs = [r for r in w.refs if r.owner.file == X]
+        kind = t.pick(["syntax", "dangling"] if xrefs else ["syntax"], "bulk-corruption")
+        if kind == "syntax":
+            ents = [e for e in w.all_ents(w.files[X]) if e.kind != "inner"]
+            if not ents:
+                fail = False
+            else:
+                target = t.pick(ents, "bulk-syntax-at")
+                target.pre_tokens = ["%"]
+        else:
+            target = t.pick(xrefs, "bulk-ref")
+            target.text_override_saved = target.text_override
+            target.text_override = "zz9"
+        if fail:
+            w.render()
+            w.install(SIMFS)
+            ctx.fired("bulk-" + kind)
+    ctx.sample["ops"].append(["bulk-load-into-caller-repository", kind, os.path.relpath(X, ROOT) if X else None])
+    snap = [(k, id(v)) for k, v in repo.all_models.filename_to_model.items()]
+    sysm.opens.clear()
+    sysm.sched.resolved.clear()
+    sysm.sched.calls.clear()
+    sysm.sched.anon_file = None
+    err = None
+    try:
+        base.load_models_in_model_repo(global_model_repo=repo)
+        outcome = "ok"
+    except TextXError as e:
+        outcome = "error"
+        err = dump_error(e)
+    except Exception as e:
+        outcome = "crash"
+        err = dump_error(e)
+    ctx.ev("bulk", outcome, kind)
+    fclass = f"bulk/{kind}/{famtag}"
+    if fail:
+        if outcome == "ok":
+            ctx.violate("C18", "corrupted-load-succeeds", fclass, f"{kind} in {os.path.relpath(X, ROOT)}: the bulk load succeeded")
+        else:
+            ctx.probe("failed:bulk:" + kind)
+            ctx.nontrivial = True
+            now = [(k, id(v)) for k, v in repo.all_models.filename_to_model.items()]
+            before_ids = {i for _, i in snap}
+            extra = [os.path.relpath(k, ROOT) for k, i in now if i not in before_ids]
+            lost = [os.path.relpath(k, ROOT) for k, i in snap if (k, i) not in now]
+            if extra or lost:
+                ctx.violate("C18", "surviving-repository-clean", fclass,
+                            f"after the failed bulk load the caller's repository has extra {extra}, lost {lost}")
+                for k, i in now:
+                    if i not in before_ids:
+                        del repo.all_models.filename_to_model[k]
+        _undo(w, kind, target, sysm)
+        sysm.opens.clear()
+        try:
+            base.load_models_in_model_repo(global_model_repo=repo)
+        except Exception as e:
+            ctx.violate("C18", "repaired-load-fails", fclass, f"after the repair the bulk load fails: {dump_error(e)}")
+            return False
+    elif outcome != "ok":
+        ctx.violate("C17", "valid-load-fails", "bulk/" + famtag, f"bulk load failed: {err}")
+        return False
+    # ---- complete and consistent: one model per file, references point into them
+    by_file = {}
+    for m in repo.all_models:
+        fn = getattr(m, "_tx_filename", None)
+        if fn in by_file and by_file[fn] is not m:
+            ctx.violate("C17", "single-model-per-file", "bulk/" + famtag, f"two models for {fn} in the caller's repository")
+        by_file[fn] = m
+    if set(by_file) != set(w.gr_files):
+        ctx.violate("C17", "repository-content", "bulk/" + famtag,
+                    f"caller's repository holds {sorted(os.path.relpath(x, ROOT) for x in by_file if x)}, the patterns match "
+                    f"{sorted(os.path.relpath(x, ROOT) for x in w.gr_files)}")
+        return True
+    if not fail:
+        want_opens = sorted(f for f in todo if f not in cache)
+        if sorted(sysm.opens) != want_opens:
+            ctx.violate("C17", "load-once", "bulk/" + famtag,
+                        f"opened {[os.path.relpath(x, ROOT) for x in sorted(sysm.opens)]}, expected "
+                        f"{[os.path.relpath(x, ROOT) for x in want_opens]}")
+    for u in w.uses:
+        if u.file not in by_file:
+            continue
+        uo = locate(by_file[u.file], u.path())
+        lst = [r for r in u.refs if r.attr == "refs"]
+        pairs = list(zip(lst, list(uo.refs))) + [(r, uo.one) for r in u.refs if r.attr == "one"]
+        if len(uo.refs) != len(lst):
+            ctx.violate("C17", "reference-identity", "bulk/" + famtag, f"{u.sid()}.refs has {len(uo.refs)} entries")
+            continue
+        for r, o in pairs:
+            if r.target == "builtin":
+                continue
+            exp = locate(by_file[r.target.file], r.target.path()) if r.target.file in by_file else None
+            if o is not exp:
+                ctx.violate("C18" if fail else "C17", "reference-identity" if not fail else "repaired-load-identities",
+                            "bulk/" + famtag, f"{r.key} resolved to {getattr(o, 'name', o)!r} which is not the element of the "
+                                              f"single model of {os.path.basename(r.target.file)}")
+                return True
+    ctx.probe("bulk-load-ok")
+    return True
 
 
 def op_builtin_dup(ctx, w, t, wrap, famtag):
